@@ -9,6 +9,13 @@ PID = "C10"
 
 
 def main():
+    try:
+        return main2()
+    except c02.RefPartial as e:
+        raise vlib.Infra("no fault-free reference: %s" % e)      # C02's verdict, not C10's
+
+
+def main2():
     t0 = time.time()
     tier, seed = vlib.tier(), vlib.seed()
     work = vlib.scratch("c10-")
@@ -92,6 +99,8 @@ def main():
             "daemon_exits_on_fault": deaths, "known_findings_hit": sorted(known), "mc": mc,
         }, time.time() - t0, violations=len(seen),
             assumptions=["faults are transient (fail once); a daemon that exits on a fault is restarted once by a supervisor (counted in daemon_exits_on_fault)"])
+        if c02.STALLED and not viol:
+            raise vlib.Infra("the fault-free run stalled (%s): no verdict" % (c02.STALLED[:2],))
         return 1 if viol else 0
     finally:
         shutil.rmtree(work, ignore_errors=True)
